@@ -7,8 +7,11 @@ from __future__ import annotations
 
 from vflib.oracles import RefModel
 
-CUSTOM_ROLES = {':r': {}, ':r-of': {}, ':q[0-9]': {}}
-CUSTOM_NORMS = {':s-of': ':t', ':t-of': ':s'}
+# ':s-of' is a role by definition (like AMR's :consist-of) and ':s' is not;
+# ':q[0-9]' is a pattern role.  No role collides with the inverse of another
+# (a table defining both :r and :r-of has no unambiguous inversion).
+CUSTOM_ROLES = {':r': {}, ':s-of': {}, ':q[0-9]': {}}
+CUSTOM_NORMS = {':t-of': ':u', ':u-of': ':t'}
 CUSTOM_REIFS = [(':r', 'have-r', ':ARG1', ':ARG2'),
                 (':q1', 'have-q', ':ARG0', ':ARG1')]
 
@@ -26,7 +29,6 @@ def get(kind: str):
         from penman.models import noop
         return noop.model, RefModel((), False)
     if kind == 'custom':
-        # ':r-of' is a role by definition, ':q[0-9]' is a pattern role
         return (Model(roles=CUSTOM_ROLES, normalizations=CUSTOM_NORMS,
                       reifications=CUSTOM_REIFS),
                 RefModel(list(CUSTOM_ROLES), True, CUSTOM_NORMS))
@@ -39,5 +41,5 @@ ROLES = {
     'default': [':r', ':r-of', ':q'],
     'noop': [':r', ':r-of', ':q'],
     'amr': [':ARG0', ':ARG0-of', ':consist-of', ':consist-of-of', ':mod'],
-    'custom': [':r', ':r-of', ':r-of-of', ':q1', ':q1-of'],
+    'custom': [':r', ':r-of', ':s-of', ':s-of-of', ':q1'],
 }
